@@ -51,6 +51,9 @@ func newCluster(cs *Case) *cluster {
 	if cs.Ctrl0 == 2 {
 		cl.controller = 2
 	}
+	if cs.IDBase0 {
+		cl.off = -1
+	}
 	if cs.NB > 0 {
 		cl.nb = cs.NB
 		switch cs.Op {
